@@ -51,6 +51,7 @@ type entry struct {
 // world: parameter sets and secret keys shared by all constructors (read-only after construction).
 type world struct {
 	pA, pB, pC        rlwe.Parameters // A: N=16, 3Q+2P (30 bit); B: N=32, 2Q+1P (45 bit); C: N=16, 2Q, no P (55 bit)
+	pD                rlwe.Parameters // D: N=1024, 2Q+1P (50 bit): one row of coefficients (8 KiB) exceeds a default bufio buffer
 	skA, skA2         *rlwe.SecretKey
 	skB, skC          *rlwe.SecretKey
 	bgvOnce, ckksOnce sync.Once
@@ -144,6 +145,8 @@ func getWorld(seed uint64) *world {
 		w.pB = uni.RLWE(rlwe.ParametersLiteral{LogN: 5, Q: qb[:2], P: qb[2:], NTTFlag: true})
 		qc := uni.Primes(4, 55, 2)
 		w.pC = uni.RLWE(rlwe.ParametersLiteral{LogN: 4, Q: qc, NTTFlag: true})
+		qd := uni.Primes(10, 50, 3)
+		w.pD = uni.RLWE(rlwe.ParametersLiteral{LogN: 10, Q: qd[:2], P: qd[2:], NTTFlag: true})
 		w.skA = rlwe.NewKeyGenerator(w.pA).GenSecretKeyNew()
 		w.skA2 = rlwe.NewKeyGenerator(w.pA).GenSecretKeyNew()
 		w.skB = rlwe.NewKeyGenerator(w.pB).GenSecretKeyNew()
@@ -327,12 +330,14 @@ func catalogue() []*entry {
 			V("A-level0", func(w *world, g *gen) any { p := rndPoly(g, w.pA, 0); return &p }),
 			V("B-level1-N32", func(w *world, g *gen) any { p := rndPoly(g, w.pB, 1); return &p }),
 			V("zero-value", func(w *world, g *gen) any { return &ring.Poly{} }),
+			V("D-level1-N1024", func(w *world, g *gen) any { p := rndPoly(g, w.pD, 1); return &p }),
 		}},
 		{name: "ringqp.Poly", zero: Z[ringqp.Poly](), vals: []value{
 			V("A-2-1", func(w *world, g *gen) any { p := rndPolyQP(g, w.pA, 2, 1); return &p }),
 			V("A-0-0", func(w *world, g *gen) any { p := rndPolyQP(g, w.pA, 0, 0); return &p }),
 			V("C-noP", func(w *world, g *gen) any { p := rndPolyQP(g, w.pC, 1, -1); return &p }),
 			V("B-1-0-N32", func(w *world, g *gen) any { p := rndPolyQP(g, w.pB, 1, 0); return &p }),
+			V("D-0-0-N1024", func(w *world, g *gen) any { p := rndPolyQP(g, w.pD, 0, 0); return &p }),
 		}},
 		{name: "structs.Vector[ring.Poly]", zero: Z[structs.Vector[ring.Poly]](), vals: []value{
 			V("empty", func(w *world, g *gen) any { v := structs.Vector[ring.Poly]{}; return &v }),
@@ -425,6 +430,7 @@ func catalogue() []*entry {
 			V("A-deg0-level0-md0", func(w *world, g *gen) any { return rndCt(g, w.pA, 0, 0, 0) }),
 			V("A-deg1-level0-nil-metadata", func(w *world, g *gen) any { return rndCt(g, w.pA, 1, 0, -1) }),
 			V("B-deg1-level1-md3-N32", func(w *world, g *gen) any { return rndCt(g, w.pB, 1, 1, 3) }),
+			V("D-deg1-level0-md1-N1024", func(w *world, g *gen) any { return rndCt(g, w.pD, 1, 0, 1) }),
 		}},
 		{name: "rlwe.Element[ringqp.Poly]", zero: Z[rlwe.Element[ringqp.Poly]](), vals: []value{
 			V("A-deg1-2-1", func(w *world, g *gen) any {
